@@ -1,12 +1,57 @@
 """C01 - iterating a pipeline equals the eager reference semantics, repeatably (Model A)."""
-from .. import model_a
+from .. import common, model_a, gen_a
+from ..gen_a import Node
 
 PROP_FILE = 'props/C01.v'
 WANT = {'iter'}
 
 
+def long_sources(r, count):
+    """the random generator keeps sources short (0..6); order computations that depend on the lengths themselves
+    (intersperse positions (i+1)/n, array_split shard sizes, tile/concat offsets, strided slices) get long sources here"""
+    out = []
+    lens = [1, 2, 3, 5, 6, 7, 10, 14, 15, 20, 25, 30, 49, 50]
+    for _ in range(count):
+        k = r.choice([2, 2, 2, 3])
+        ns = [r.choice(lens) for _ in range(k)]
+        if r.random() < 0.3:
+            ns[0], ns[1] = r.choice([(5, 15), (10, 15), (20, 15), (5, 25), (5, 30), (30, 6), (1, 49), (15, 5), (7, 49)])
+        keyed = r.random() < 0.5
+        kids, base = [], 0
+        for j, n in enumerate(ns):
+            vals = list(range(base, base + n))
+            base += n
+            if keyed:
+                kids.append(Node('dict', (tuple((f'p{j}_{i}', v) for i, v in enumerate(vals)), 'pickle')))
+            else:
+                kids.append(Node('list', (tuple(vals), 'pickle')))
+        w = r.random()
+        if w < 0.55:
+            d = Node('intersperse', (), kids)
+        elif w < 0.7:
+            d = Node('concat', (), kids)
+        elif w < 0.85:
+            d = Node('shard', (r.randint(1, max(1, ns[0])), 0), [kids[0]])
+            d.a = (d.a[0], r.randrange(d.a[0]))
+        else:
+            d = Node('get', (('slice', r.choice([None, 3, -7]), r.choice([None, -2, 40]), r.choice([2, 3, -3, 7])),), [kids[0]])
+        x = r.random()
+        if x < 0.2:
+            d = Node('batch', (r.choice([2, 4, 7]), r.random() < 0.5), [d])
+        elif x < 0.35:
+            d = Node('get', (('slice', None, None, -1),), [d])
+        elif x < 0.45:
+            d = Node('items', (), [d])
+        out.append(d)
+    return out
+
+
 def run(tier):
-    return model_a.run_a('C01', tier, WANT, n_quick=1500, n_thorough=40000)
+    r = common.rng_for('C01-long')
+    extra = long_sources(r, 60 if tier == 'quick' else 1500)
+    res = model_a.run_a('C01', tier, WANT | {'index'}, n_quick=1500, n_thorough=40000, extra_nodes=extra)
+    res['coverage']['long_source_programs'] = len(extra)
+    return res
 
 
 def replay(payload):
